@@ -1,8 +1,9 @@
 """Contracts for internal parsing helpers, and their verification.
 
-The crypt grid replaces two helpers of alg-yescrypt-common.c by contracts, because their loops need a relational
+The crypt grid replaces the DES core and two helpers of alg-yescrypt-common.c by contracts; for the two helpers because their loops need a relational
 invariant (dst == base + dstpos) that the value domain does not have once lengths are symbolic:
 
+    des_set_key / des_set_salt / des_crypt_block   (contracts in vlib/crypt_grid.py: key schedule, salt bits, 8-byte blocks)
     decode64_uint32 (dst, src, min)          writes *dst (4 bytes); returns NULL or src + 1..6
     yescrypt_decode64 (dst, &dstlen, src, n) writes at most *dstlen bytes at dst; stores a value <= the old *dstlen into
                                               *dstlen; returns NULL or a pointer into the src string at or after src
@@ -61,6 +62,38 @@ def cells(m, tier):
     return out, meta
 
 
+def des_cells(m, tier):
+    """the DES core is a contract in the grids (field-precise: key schedule ctx[0..128), salt bits ctx[128..132), 8-byte
+    blocks); its bodies are interpreted here with every loop unrolled.  des_crypt_block indexes its S-box tables with
+    words derived from the key schedule and the salt bits: it is memory-safe only for subkeys and salt bits below 2^24,
+    which is what des_set_key / des_set_salt must establish - both halves are checked."""
+    out, meta = [], {}
+    fk = common.sym(m, "des_set_key", required=False)
+    fs = common.sym(m, "des_set_salt", required=False)
+    fb = common.sym(m, "des_crypt_block", required=False)
+    if fk is None or fs is None or fb is None:
+        return out, meta
+    anyb, zero = set_hex(ALL), set_hex({0})
+    ctx24 = {"name": "ctx", "kind": "buf", "size": 132, "headsets": [anyb, anyb, anyb, zero] * 33}       # every word < 2^24
+    ctxu = {"name": "ctx", "kind": "buf", "size": 132, "uninit": True}
+    blk = lambda n, u=False: dict({"name": n, "kind": "buf", "size": 8, "uninit": u}, **({} if u else {"headsets": [anyb] * 8}))
+    c = xai.simple_cell("U:des_set_key", fk.name, [dict(ctxu), blk("key")], [{"ptr": "ctx"}, {"ptr": "key"}])
+    out.append(c); meta[c["id"]] = {"fn": "des_set_key", "words": range(0, 32)}
+    for salt in ([0, 1, 0xffffff, 0x555555, 0x800000] if tier == "quick" else [0, 1, 2, 0xffffff, 0x555555, 0xaaaaaa, 0x800000, 0x1000000, 0xffffffff]):
+        c = xai.simple_cell("U:des_set_salt:%x" % salt, fs.name, [dict(ctxu)], [{"ptr": "ctx"}, {"int": str(salt)}])
+        out.append(c); meta[c["id"]] = {"fn": "des_set_salt", "words": range(32, 33)}
+    counts = [0, 1, 2, 3, 25] if tier == "quick" else [0, 1, 2, 3, 4, 5, 13, 25, 26, 725]
+    for cnt in counts:
+        for dec in (0, 1):
+            c = xai.simple_cell("U:des_crypt_block:%d:%d" % (cnt, dec), fb.name, [dict(ctx24), blk("out", True), blk("in")],
+                                [{"ptr": "ctx"}, {"ptr": "out"}, {"ptr": "in"}, {"int": str(cnt)}, {"int": str(dec)}])
+            out.append(c); meta[c["id"]] = {"fn": "des_crypt_block", "count": cnt, "decrypt": dec}
+    return out, meta
+
+
+DES_CONFIG = {"maxPaths": 20000, "maxSteps": 8000000, "widenAfter": 100000, "forkyLoop": 100000, "longLoop": 100000, "ptrWidenAfter": 100000, "longLoopSteps": 1 << 40,
+              "trackInit": True, "reportRegion": "ctx", "reportLimit": 132, "track": 256}
+
 CONFIG = {"maxPaths": 20000, "maxSteps": 4000000, "widenAfter": 100000, "forkyLoop": 100000, "longLoop": 100000, "ptrWidenAfter": 100000, "longLoopSteps": 1 << 40,
           "trackInit": True, "reportRegion": "lenbuf", "reportLimit": 8, "track": 128}
 
@@ -73,6 +106,10 @@ def run(tier="quick"):
     m, info = common.prog("shared")
     cs, meta = cells(m, tier)
     res = xai.run_cells(info["bc"], cs, dict(CONFIG)) if cs else {}
+    dc, dmeta = des_cells(m, tier)
+    if dc:
+        res.update(xai.run_cells(info["bc"], dc, dict(DES_CONFIG)))
+        meta.update(dmeta)
     _CACHE[tier] = {"res": res, "meta": meta, "present": bool(cs)}
     return _CACHE[tier]
 
@@ -95,7 +132,9 @@ def oracle(chk, u):
                 chk.fail("U-CONTRACT", "%s|%s@%s:%d" % (cid, a["kind"], a["fn"], a["line"]), "%s in %s (line %d) when interpreted on its own: %s" % (a["kind"], a["fn"], a["line"], a["msg"]), "%s:%d" % (a["fn"], a["line"]), {"cell": cid})
             r = p["ret"]
             ok = False
-            if r == "null":
+            if mt["fn"].startswith("des_"):
+                ok = True          # void functions: the obligations are the memory accesses (alarms above)
+            elif r == "null":
                 ok = True
             elif r.startswith("ptr:src+"):
                 lo, _, hi = r[len("ptr:src+"):].rstrip("?").partition("..")
@@ -106,6 +145,19 @@ def oracle(chk, u):
                     ok = 0 <= lo
             if not ok:
                 chk.fail("U-CONTRACT", "%s|ret" % cid, "%s returns %s, outside what its contract claims" % (mt["fn"], r), "lib/alg-yescrypt-common.c", {"cell": cid})
+            if mt["fn"] in ("des_set_key", "des_set_salt"):
+                # post-condition that des_crypt_block's table indexing relies on: every word written is below 2^24
+                outc = p.get("out", [])
+                sc = {x[0]: x for x in p.get("scalars", []) if x[1] == 4}
+                for wd in mt["words"]:
+                    hi = None
+                    if wd * 4 in sc and sc[wd * 4][3] != "any":
+                        hi = int(sc[wd * 4][3])
+                    elif len(outc) > wd * 4 + 3:
+                        hi = sum(max(outc[wd * 4 + i][0]) << (8 * i) for i in range(4))
+                    if hi is None or hi >= 1 << 24:
+                        chk.fail("U-CONTRACT", "%s|word%d" % (cid, wd), "%s may leave %s in word %d of the DES context: des_crypt_block indexes its tables with it and needs it below 2^24" % (mt["fn"], "an unknown value" if hi is None else hex(hi), wd), "lib/alg-des.c", {"cell": cid})
+                        break
             if mt["fn"] == "yescrypt_decode64":
                 # *dstlen afterwards: the 8-byte scalar at offset 0 of lenbuf, or (never stored to) its initial bytes
                 sc = [x for x in p.get("scalars", []) if x[0] == 0 and x[1] == 8]
